@@ -45,7 +45,7 @@ def malformed(rng, count):
         m = min(m, 64); t = min(t, 2)
         s = mkstr(alg, t, m, salt, h)
         parts = s.split("$")
-        k = rng.randrange(16)
+        k = rng.randrange(20)
         if k == 0:
             del parts[rng.randrange(1, len(parts))]
         elif k == 1:
@@ -77,8 +77,30 @@ def malformed(rng, count):
             parts[3] = parts[3].replace(",", rng.choice([";", ",,", ", ", ""]))
         elif k == 14:
             parts[4], parts[5] = "", parts[5]
-        else:
+        elif k == 15:
             parts[3] = "t=%d,m=%d,p=1,m=%d" % (t, m, rng.choice([8, 16]))
+        else:
+            # the parameter segment item by item: a key displaced from the start of its item (so that the segment still
+            # *contains* "m=", "t=", "p=" but one value is never read), dropped, doubled, or reordered
+            items = ["m=%d" % m, "t=%d" % t, "p=1"]
+            i = rng.randrange(3)
+            how = rng.randrange(7)
+            if how == 0:
+                items[i] = rng.choice(["x", " ", "k", "\t", "mm", "="]) + items[i]
+            elif how == 1:
+                moved = items.pop(i); items.append(rng.choice(["k", "x", " "]) + moved)
+            elif how == 2:
+                items.pop(i)
+            elif how == 3:
+                items[i] = items[i].upper()
+            elif how == 4:
+                items[i] = items[i].replace("=", rng.choice(["==", "", ":", "= "]))
+            elif how == 5:
+                rng.shuffle(items); items[rng.randrange(3)] = "x" + items[rng.randrange(3)]
+            else:
+                j = (i + 1) % 3
+                items[i] = items[i] + items[j]; items.pop(j)
+            parts[3] = ",".join(items)
         out.append("$".join(parts))
     return out
 
